@@ -416,6 +416,9 @@ def collect_list(fl, value, node, depth=4):
         if how[0] != "assign":
             return None
         init = how[1]
+        built = fl._loop_built(v.id, d, node)
+        if built is not None and isinstance(built, ast.ListComp):
+            return collect_list(fl, built, node, depth - 1)
         if isinstance(init, ast.List) and not init.elts:
             out = []
             for n in fl.cfg.nodes:
